@@ -17,7 +17,7 @@ def sh(cmd):
 def main():
     prop, letter = sys.argv[1], sys.argv[2]
     checks = sys.argv[3:] or [prop]
-    src = '/tmp/sa_out/%s' % prop
+    src = os.environ.get('SA_SRC') or '/tmp/sa_out/%s' % prop      # SA_SRC=<dir of patchN.diff ...> SA_ID=<seeded id>
     patch = '%s/patch%s.diff' % (src, letter)
     demo = '%s/demo%s.cpp' % (src, letter)
     wt = '/tmp/cf_%s%s' % (prop, letter)
@@ -54,7 +54,7 @@ def main():
             return 1
     finally:
         sh('git -C /repo worktree remove --force %s; rm -rf %s' % (wt, wt))
-    d = os.path.join(VERIF, 'seeded', '%s-%s' % (prop, letter))
+    d = os.path.join(VERIF, 'seeded', os.environ.get('SA_ID') or '%s-%s' % (prop, letter))
     os.makedirs(d, exist_ok=True)
     shutil.copy(patch, d + '/patch.diff')
     shutil.copy(demo, d + '/demo.cpp')
